@@ -285,6 +285,45 @@ func listenLoopback() (net.Listener, error) {
 // ListenLoopback is listenLoopback for the checks (a port held by the harness).
 func ListenLoopback() (net.Listener, error) { return listenLoopback() }
 
+// OwnListenPorts returns the TCP ports THIS process holds a listening socket on.
+func OwnListenPorts() map[string]bool {
+	byInode := map[string]string{}
+	for _, fn := range []string{"/proc/self/net/tcp", "/proc/self/net/tcp6"} {
+		b, err := os.ReadFile(fn)
+		if err != nil {
+			continue
+		}
+		for _, ln := range strings.Split(string(b), "\n")[1:] {
+			fs := strings.Fields(ln)
+			if len(fs) < 10 || fs[3] != "0A" {
+				continue
+			}
+			i := strings.LastIndex(fs[1], ":")
+			if i < 0 {
+				continue
+			}
+			if p, err := strconv.ParseInt(fs[1][i+1:], 16, 32); err == nil {
+				byInode[fs[9]] = strconv.Itoa(int(p))
+			}
+		}
+	}
+	out := map[string]bool{}
+	ents, err := os.ReadDir("/proc/self/fd")
+	if err != nil {
+		return out
+	}
+	for _, e := range ents {
+		t, err := os.Readlink("/proc/self/fd/" + e.Name())
+		if err != nil || !strings.HasPrefix(t, "socket:[") {
+			continue
+		}
+		if p, ok := byInode[strings.TrimSuffix(strings.TrimPrefix(t, "socket:["), "]")]; ok {
+			out[p] = true
+		}
+	}
+	return out
+}
+
 // OwnListening reports whether THIS process holds a listening TCP socket on port.
 func OwnListening(port string) bool {
 	pn, err := strconv.Atoi(port)
